@@ -16,10 +16,18 @@ package driver
 //
 // one request line (JSON):
 //   {"id":..,"cap":n,"consumer":"stalled"|"slow"|"keeping-up","limit_ms":n,
-//    "traffic":[{"k":"report","n":3,"payload":"empty"|"tags"},{"k":"event","n":2},{"k":"ka","id":7},{"k":"pause","ms":5}]}
+//    "op_state":"up"|"down",                   the operating state EdgeX has recorded for the device when it is created
+//    "sdk":""|"slow"|"fail"|"hang",            how UpdateDeviceOperatingState behaves (hang: until the traffic of phase c is over)
+//    "negotiate":"direct"|"two-step",          GetSupportedVersionResponse says current = 1.1 / current = 1.0.1 (SetProtocolVersion follows)
+//    "traffic_a":[..],                         sent when GetSupportedVersion has arrived, BEFORE it is answered
+//    "traffic_b":[..],                         two-step: sent when SetProtocolVersion has arrived, before it is answered
+//    "traffic_c":[..],                         sent right after the negotiation replies, before the device's SetReaderConfig is awaited
+//    "traffic":[..]}                           sent after SetReaderConfig was answered
+//   traffic items: {"k":"report","n":3,"payload":"empty"|"tags"}, {"k":"event","n":2,"kind":"gpi"|"hopping"|..,"uptime":bool},
+//                  {"k":"ka","id":7}, {"k":"pause","ms":5}
 // one answer line (JSON):
-//   {"id":..,"setup":"ok"|..,"payload_ok":bool,"kas":[{"id":..,"acks":n,"ms":n,"pending_before":n}],
-//    "stray_acks":[..],"sent_reports":n,"sent_events":n,"published":n}
+//   {"id":..,"setup":"ok"|..,"payload_ok":bool,"kas":[{"id":..,"acks":n,"ms":n,"pending_before":n,"phase":"a|b|c|main","late":bool}],
+//    "stray_acks":[..],"sent_reports":n,"sent_events":n,"published":n,"sdk_calls":n}
 //
 // The reader builds and parses frames with its own code.
 
@@ -27,6 +35,7 @@ import (
 	"context"
 	"encoding/binary"
 	"encoding/json"
+	"errors"
 	"io"
 	"net"
 	"sync"
@@ -42,24 +51,51 @@ import (
 	"github.com/edgexfoundry/device-rfid-llrp-go/pkg/llrp"
 )
 
-type c07SDK struct{ interfaces.DeviceServiceSDK }
+type c07SDK struct {
+	interfaces.DeviceServiceSDK
+	mode    string
+	release chan struct{}
+	calls   *atomic.Int64
+}
 
-func (c07SDK) UpdateDeviceOperatingState(string, models.OperatingState) error { return nil }
+func (k c07SDK) UpdateDeviceOperatingState(string, models.OperatingState) error {
+	k.calls.Add(1)
+	switch k.mode {
+	case "slow":
+		time.Sleep(300 * time.Millisecond)
+	case "fail":
+		return errors.New("verif: core-metadata unavailable")
+	case "hang":
+		select {
+		case <-k.release:
+		case <-time.After(20 * time.Second):
+		}
+	}
+	return nil
+}
 
 type c07Item struct {
 	K       string `json:"k"`
 	N       int    `json:"n"`
 	ID      uint32 `json:"id"`
 	Payload string `json:"payload"`
+	Kind    string `json:"kind"`
+	Uptime  bool   `json:"uptime"`
 	Ms      int    `json:"ms"`
 }
 
 type c07Req struct {
-	ID       string    `json:"id"`
-	Cap      int       `json:"cap"`
-	Consumer string    `json:"consumer"`
-	LimitMs  int       `json:"limit_ms"`
-	Traffic  []c07Item `json:"traffic"`
+	ID        string    `json:"id"`
+	Cap       int       `json:"cap"`
+	Consumer  string    `json:"consumer"`
+	LimitMs   int       `json:"limit_ms"`
+	OpState   string    `json:"op_state"`
+	SDK       string    `json:"sdk"`
+	Negotiate string    `json:"negotiate"`
+	TrafficA  []c07Item `json:"traffic_a"`
+	TrafficB  []c07Item `json:"traffic_b"`
+	TrafficC  []c07Item `json:"traffic_c"`
+	Traffic   []c07Item `json:"traffic"`
 }
 
 type c07KA struct {
@@ -67,6 +103,8 @@ type c07KA struct {
 	Acks          int    `json:"acks"`
 	Ms            int64  `json:"ms"`
 	PendingBefore int    `json:"pending_before"`
+	Phase         string `json:"phase"`
+	Late          bool   `json:"late"` // not acknowledged within the limit (an acknowledgement counted in acks came later)
 }
 
 func c07Frame(ver, typ int, id uint32, payload []byte) []byte {
@@ -80,14 +118,45 @@ func c07Frame(ver, typ int, id uint32, payload []byte) []byte {
 
 var c07StatusOK = []byte{0x01, 0x1F, 0x00, 0x08, 0, 0, 0, 0}
 
-// ReaderEventNotificationData{UTCTimestamp, ConnectionAttemptEvent(success)}
-var c07ConnEvent = []byte{0x00, 0xF6, 0x00, 0x16, 0x00, 0x80, 0x00, 0x0C, 0, 0x05, 0xa7, 0x38, 0x13, 0x3c, 0x2c, 0x9e, 0x01, 0x00, 0x00, 0x06, 0, 0}
+// the event parameters a ReaderEventNotificationData can carry (LLRP 1.1 section 16.2.7.6), each encoded by hand
+var c07EventParams = map[string][]byte{
+	"hopping":   {0x00, 0xF7, 0x00, 0x08, 0x00, 0x01, 0x00, 0x02},
+	"gpi":       {0x00, 0xF8, 0x00, 0x07, 0x00, 0x02, 0x80},
+	"rospec":    {0x00, 0xF9, 0x00, 0x0D, 0x00, 0, 0, 0, 1, 0, 0, 0, 0},
+	"buflevel":  {0x00, 0xFA, 0x00, 0x05, 90},
+	"bufover":   {0x00, 0xFB, 0x00, 0x04},
+	"exception": {0x00, 0xFC, 0x00, 0x09, 0x00, 0x03, 'e', 'r', 'r'},
+	"rfsurvey":  {0x00, 0xFD, 0x00, 0x0B, 0x00, 0, 0, 0, 1, 0, 1},
+	"aispec":    {0x00, 0xFE, 0x00, 0x0B, 0x00, 0, 0, 0, 1, 0, 1},
+	"antenna":   {0x00, 0xFF, 0x00, 0x07, 0x01, 0x00, 0x03},
+	"connfail":  {0x01, 0x00, 0x00, 0x06, 0, 1}, // ConnectionAttemptEvent: failed, a reader-initiated connection exists
+	"connok":    {0x01, 0x00, 0x00, 0x06, 0, 0}, // ConnectionAttemptEvent: success (mid-stream)
+	"connclose": {0x01, 0x01, 0x00, 0x04},
+	"specloop":  {0x01, 0x64, 0x00, 0x0C, 0, 0, 0, 1, 0, 0, 0, 2},
+	"none":      {},
+}
 
-// ReaderEventNotificationData{UTCTimestamp, GPIEvent(port 2, true)}
-var c07GPIEvent = []byte{0x00, 0xF6, 0x00, 0x17, 0x00, 0x80, 0x00, 0x0C, 0, 0x05, 0xa7, 0x38, 0x13, 0x3c, 0x2c, 0x9f, 0x00, 0xF8, 0x00, 0x07, 0x00, 0x02, 0x80}
+// ReaderEventNotificationData{UTCTimestamp | Uptime, <event parameter>}
+func c07Event(kind string, uptime bool) []byte {
+	ts := []byte{0x00, 0x80, 0x00, 0x0C, 0, 0x05, 0xa7, 0x38, 0x13, 0x3c, 0x2c, 0x9f}
+	if uptime {
+		ts = []byte{0x00, 0x81, 0x00, 0x0C, 0, 0, 0, 0, 0x00, 0x4c, 0x4b, 0x40}
+	}
+	p, ok := c07EventParams[kind]
+	if !ok {
+		p = c07EventParams["gpi"]
+	}
+	body := append(append([]byte{}, ts...), p...)
+	return append([]byte{0x00, 0xF6, byte((len(body) + 4) >> 8), byte(len(body) + 4)}, body...)
+}
 
 // TagReportData{EPC96}
 var c07TagReport = []byte{0x00, 0xF0, 0x00, 0x11, 0x8D, 1, 2, 3, 4, 5, 6, 7, 8, 9, 10, 11, 12}
+
+type c07In struct { // a request of the device the reader has to answer
+	typ int
+	id  uint32
+}
 
 func c07Run(rq c07Req) map[string]interface{} {
 	out := map[string]interface{}{"id": rq.ID}
@@ -96,9 +165,14 @@ func c07Run(rq c07Req) map[string]interface{} {
 		limit = time.Duration(rq.LimitMs) * time.Millisecond
 	}
 	// does the library's own decoder accept the payloads used here? (otherwise the handlers return early)
-	pok := (&llrp.ROAccessReport{}).UnmarshalBinary(c07TagReport) == nil &&
-		(&llrp.ReaderEventNotification{}).UnmarshalBinary(c07GPIEvent) == nil &&
-		(&llrp.ReaderEventNotification{}).UnmarshalBinary(c07ConnEvent) == nil
+	pok := (&llrp.ROAccessReport{}).UnmarshalBinary(c07TagReport) == nil
+	for k := range c07EventParams {
+		for _, up := range []bool{false, true} {
+			if (&llrp.ReaderEventNotification{}).UnmarshalBinary(c07Event(k, up)) != nil {
+				pok = false
+			}
+		}
+	}
 	out["payload_ok"] = pok
 
 	ln, err := net.Listen("tcp", "127.0.0.1:0")
@@ -142,33 +216,25 @@ func c07Run(rq c07Req) map[string]interface{} {
 		}
 	}()
 
-	d := &Driver{lc: logger.MockLogger{}, asyncCh: asyncCh, svc: c07SDK{},
+	var sdkCalls atomic.Int64
+	sdkRelease := make(chan struct{})
+	var releaseOnce sync.Once
+	releaseSDK := func() { releaseOnce.Do(func() { close(sdkRelease) }) }
+	d := &Driver{lc: logger.MockLogger{}, asyncCh: asyncCh, svc: c07SDK{mode: rq.SDK, release: sdkRelease, calls: &sdkCalls},
 		activeDevices: make(map[string]*LLRPDevice), done: make(chan struct{}), config: &ServiceConfig{}}
 
-	// ---- the scripted reader
+	// ---- the scripted reader: one goroutine reads whatever the device writes and sorts it; this function writes
 	acks := make(chan uint32, 4096)
-	setup := make(chan string, 1)
+	reqs := make(chan c07In, 64)
 	var wmu sync.Mutex
 	var conn net.Conn
 	connCh := make(chan net.Conn, 1)
 	go func() {
 		c, err := ln.Accept()
 		if err != nil {
-			setup <- "accept: " + err.Error()
 			return
 		}
 		connCh <- c
-		write := func(b []byte) error {
-			wmu.Lock()
-			defer wmu.Unlock()
-			_ = c.SetWriteDeadline(time.Now().Add(5 * time.Second))
-			_, err := c.Write(b)
-			return err
-		}
-		if err := write(c07Frame(2, 63, 0, c07ConnEvent)); err != nil {
-			setup <- "first message: " + err.Error()
-			return
-		}
 		hb := make([]byte, 10)
 		for {
 			if _, err := io.ReadFull(c, hb); err != nil {
@@ -184,39 +250,56 @@ func c07Run(rq c07Req) map[string]interface{} {
 			if _, err := io.ReadFull(c, pl); err != nil {
 				return
 			}
-			switch typ {
-			case 46: // GetSupportedVersion -> current 1.1, supported 1.1
-				_ = write(c07Frame(2, 56, id, append([]byte{2 << 5, 2 << 5}, c07StatusOK...)))
-			case 47: // SetProtocolVersion
-				_ = write(c07Frame(2, 57, id, c07StatusOK))
-			case 3: // SetReaderConfig (the device's own, after the connection event)
-				_ = write(c07Frame(2, 13, id, c07StatusOK))
-				select {
-				case setup <- "ok":
-				default:
-				}
-			case 14: // CloseConnection
-				_ = write(c07Frame(2, 4, id, c07StatusOK))
-			case 72:
+			if typ == 72 {
 				select {
 				case acks <- id:
 				default:
 				}
+				continue
+			}
+			select {
+			case reqs <- c07In{typ, id}:
+			default:
 			}
 		}
 	}()
 
-	addr := ln.Addr()
-	dev := d.NewLLRPDevice("c07dev", addr, models.Up)
+	var opState models.OperatingState = models.Up
+	if rq.OpState == "down" {
+		opState = models.Down
+	}
+	dev := d.NewLLRPDevice("c07dev", ln.Addr(), opState)
 	d.devicesMu.Lock()
 	d.activeDevices["c07dev"] = dev
 	d.devicesMu.Unlock()
 	defer func() {
-		// let everything parked on the channel go, then stop the device
+		// let everything parked go, then stop the device
+		releaseSDK()
 		consume.Store(2)
+		stopA := make(chan struct{})
+		go func() { // the reader answers the CloseConnection of Stop (and whatever else is still asked)
+			for {
+				select {
+				case in := <-reqs:
+					if conn != nil {
+						wmu.Lock()
+						_ = conn.SetWriteDeadline(time.Now().Add(time.Second))
+						if in.typ == 14 {
+							_, _ = conn.Write(c07Frame(2, 4, in.id, c07StatusOK))
+						} else if in.typ < 50 {
+							_, _ = conn.Write(c07Frame(2, in.typ+10, in.id, c07StatusOK))
+						}
+						wmu.Unlock()
+					}
+				case <-stopA:
+					return
+				}
+			}
+		}()
 		ctx, cancel := context.WithTimeout(context.Background(), time.Second)
 		_ = dev.Stop(ctx)
 		cancel()
+		close(stopA)
 		if conn != nil {
 			_ = conn.Close()
 		}
@@ -224,6 +307,7 @@ func c07Run(rq c07Req) map[string]interface{} {
 		close(stopConsumer)
 		<-consumerDone
 		out["published"] = published.Load()
+		out["sdk_calls"] = sdkCalls.Load()
 	}()
 
 	select {
@@ -232,18 +316,6 @@ func c07Run(rq c07Req) map[string]interface{} {
 		out["setup"] = "the device did not dial"
 		return out
 	}
-	select {
-	case st := <-setup:
-		out["setup"] = st
-		if st != "ok" {
-			return out
-		}
-	case <-time.After(5 * time.Second):
-		out["setup"] = "no SetReaderConfig from the device"
-		return out
-	}
-	time.Sleep(5 * time.Millisecond)
-
 	send := func(b []byte) bool {
 		wmu.Lock()
 		defer wmu.Unlock()
@@ -251,94 +323,181 @@ func c07Run(rq c07Req) map[string]interface{} {
 		_, err := conn.Write(b)
 		return err == nil
 	}
+	// wait for a request of the given type from the device; other requests seen meanwhile are answered generically
+	answer := func(in c07In) {
+		switch in.typ {
+		case 14: // CloseConnection
+			send(c07Frame(2, 4, in.id, c07StatusOK))
+		case 60: // GetReport has no response
+		default:
+			if in.typ < 50 { // a request: <type+10>Response with LLRPStatus success
+				send(c07Frame(2, in.typ+10, in.id, c07StatusOK))
+			}
+		}
+	}
+	await := func(typ int, d time.Duration) (c07In, bool) {
+		dl := time.After(d)
+		for {
+			select {
+			case in := <-reqs:
+				if in.typ == typ {
+					return in, true
+				}
+				answer(in)
+			case <-dl:
+				return c07In{}, false
+			}
+		}
+	}
+
 	got := map[uint32]int{}
 	sentKA := map[uint32]bool{}
 	var kas []c07KA
 	nrep, nev := 0, 0
 	failed := false
 	nextID := uint32(5000)
-	for _, it := range rq.Traffic {
-		switch it.K {
-		case "report":
-			for i := 0; i < it.N; i++ {
-				var pl []byte
-				if it.Payload == "tags" {
-					pl = c07TagReport
+	run := func(items []c07Item, phase string) {
+		for _, it := range items {
+			switch it.K {
+			case "report":
+				for i := 0; i < it.N; i++ {
+					var pl []byte
+					if it.Payload == "tags" {
+						pl = c07TagReport
+					}
+					nextID++
+					if !send(c07Frame(2, 61, nextID, pl)) {
+						out["write_blocked"] = true
+					}
+					nrep++
 				}
-				nextID++
-				if !send(c07Frame(2, 61, nextID, pl)) {
+			case "event":
+				n := it.N
+				if n == 0 {
+					n = 1
+				}
+				for i := 0; i < n; i++ {
+					nextID++
+					if !send(c07Frame(2, 63, nextID, c07Event(it.Kind, it.Uptime))) {
+						out["write_blocked"] = true
+					}
+					nev++
+				}
+			case "pause":
+				time.Sleep(time.Duration(it.Ms) * time.Millisecond)
+			case "ka":
+				pending := 0
+				for _, k := range kas {
+					if k.Acks == 0 {
+						pending++
+					}
+				}
+				t0 := time.Now()
+				sentKA[it.ID] = true
+				if !send(c07Frame(2, 62, it.ID, nil)) {
 					out["write_blocked"] = true
 				}
-				nrep++
-			}
-		case "event":
-			for i := 0; i < it.N; i++ {
-				nextID++
-				if !send(c07Frame(2, 63, nextID, c07GPIEvent)) {
-					out["write_blocked"] = true
+				lim := limit
+				if failed { // once one acknowledgement is missing the rest is not waited for at length
+					lim = 150 * time.Millisecond
 				}
-				nev++
-			}
-		case "pause":
-			time.Sleep(time.Duration(it.Ms) * time.Millisecond)
-		case "ka":
-			pending := 0
-			for _, k := range kas {
-				if k.Acks == 0 {
-					pending++
+				deadline := time.After(lim)
+			wait:
+				for got[it.ID] == 0 {
+					select {
+					case id := <-acks:
+						got[id]++
+					case <-deadline:
+						break wait
+					}
 				}
-			}
-			t0 := time.Now()
-			sentKA[it.ID] = true
-			if !send(c07Frame(2, 62, it.ID, nil)) {
-				out["write_blocked"] = true
-			}
-			lim := limit
-			if failed { // once one acknowledgement is missing the rest is not waited for at length
-				lim = 150 * time.Millisecond
-			}
-			deadline := time.After(lim)
-		wait:
-			for got[it.ID] == 0 {
-				select {
-				case id := <-acks:
-					got[id]++
-				case <-deadline:
-					break wait
+				if got[it.ID] == 0 {
+					failed = true
 				}
-			}
-			if got[it.ID] == 0 {
-				failed = true
-			}
-			kas = append(kas, c07KA{ID: it.ID, Acks: got[it.ID], Ms: time.Since(t0).Milliseconds(), PendingBefore: pending})
-		}
-	}
-	// late / duplicate acknowledgements
-	time.Sleep(20 * time.Millisecond)
-	for {
-		select {
-		case id := <-acks:
-			got[id]++
-			continue
-		default:
-		}
-		break
-	}
-	stray := []uint32{}
-	for i := range kas {
-		kas[i].Acks = got[kas[i].ID]
-	}
-	for id, n := range got {
-		if !sentKA[id] {
-			for j := 0; j < n; j++ {
-				stray = append(stray, id)
+				kas = append(kas, c07KA{ID: it.ID, Acks: got[it.ID], Ms: time.Since(t0).Milliseconds(), PendingBefore: pending, Phase: phase,
+					Late: got[it.ID] == 0})
 			}
 		}
 	}
-	out["kas"] = kas
-	out["stray_acks"] = stray
-	out["sent_reports"] = nrep
-	out["sent_events"] = nev
+	finish := func() {
+		time.Sleep(20 * time.Millisecond) // late / duplicate acknowledgements
+		for {
+			select {
+			case id := <-acks:
+				got[id]++
+				continue
+			default:
+			}
+			break
+		}
+		stray := []uint32{}
+		for i := range kas {
+			kas[i].Acks = got[kas[i].ID]
+		}
+		for id, n := range got {
+			if !sentKA[id] {
+				for j := 0; j < n; j++ {
+					stray = append(stray, id)
+				}
+			}
+		}
+		out["kas"] = kas
+		out["stray_acks"] = stray
+		out["sent_reports"] = nrep
+		out["sent_events"] = nev
+	}
+	defer finish()
+
+	// ---- connection set-up, with traffic at every stage of it
+	if !send(c07Frame(2, 63, 0, c07Event("connok", false))) {
+		out["setup"] = "first message not taken"
+		return out
+	}
+	in, ok := await(46, 5*time.Second)
+	if !ok {
+		out["setup"] = "no GetSupportedVersion from the device"
+		return out
+	}
+	run(rq.TrafficA, "a")
+	if rq.Negotiate == "two-step" {
+		send(c07Frame(2, 56, in.id, append([]byte{1 << 5, 2 << 5}, c07StatusOK...)))
+		in, ok = await(47, 3*time.Second)
+		if !ok {
+			out["setup"] = "no SetProtocolVersion from the device"
+			return out
+		}
+		run(rq.TrafficB, "b")
+		send(c07Frame(2, 57, in.id, c07StatusOK))
+	} else {
+		send(c07Frame(2, 56, in.id, append([]byte{2 << 5, 2 << 5}, c07StatusOK...)))
+	}
+	run(rq.TrafficC, "c")
+	releaseSDK()
+	in, ok = await(3, 5*time.Second)
+	if !ok {
+		out["setup"] = "no SetReaderConfig from the device"
+		return out
+	}
+	send(c07Frame(2, 13, in.id, c07StatusOK))
+	out["setup"] = "ok"
+	time.Sleep(5 * time.Millisecond)
+	// whatever else the device asks for while the traffic runs is answered by a helper
+	stopAns := make(chan struct{})
+	ansDone := make(chan struct{})
+	go func() {
+		defer close(ansDone)
+		for {
+			select {
+			case in := <-reqs:
+				answer(in)
+			case <-stopAns:
+				return
+			}
+		}
+	}()
+	run(rq.Traffic, "main")
+	close(stopAns)
+	<-ansDone
 	return out
 }
 
